@@ -390,6 +390,11 @@ func (v *visitor) FunctionNode(node *ast.FunctionNode) reflect.Type {
 
 			return v.checkFunc(fn, f.Method, node, node.Name, node.Arguments)
 		}
+		// A member that is declared with another type is not an unknown
+		// function, whatever is allowed for undefined names.
+		if f.Type != nil {
+			return v.error(node, "unknown func %v", node.Name)
+		}
 	}
 	if !v.strict {
 		for _, arg := range node.Arguments {
